@@ -9,12 +9,13 @@ for l in open(os.path.join(root, "eval.jsonl")):
     ev[r["seed"]] = r
 table = []
 for name, r in sorted(ev.items()):
-    pid, x = name.split("/")
-    src = os.path.join(root, "seed_" + pid, x)
+    base, x = name.split("/")
+    pid = base[-3:]
+    src = os.path.join(root, "seed_" + base, x)
     if "demo_on_original=pass" not in r["confirm"] or "suite_with_change=pass" not in r["confirm"] or "fail-as-expected" not in r["confirm"]:
         print("NOT CONFIRMED, skipped:", name, r["confirm"])
         continue
-    dst = "/verif/seeded/%s-%s" % (pid, x)
+    dst = "/verif/seeded/%s-%s" % (base.replace("_", "-"), x)
     os.makedirs(dst, exist_ok=True)
     shutil.copy(os.path.join(src, "patch.diff"), os.path.join(dst, "patch.diff"))
     shutil.copy(os.path.join(src, "demo_test.go"), os.path.join(dst, "demo_test.go.txt"))
@@ -46,8 +47,8 @@ for name, r in sorted(ev.items()):
         "demonstration": "demo_test.go.txt (rename to *_test.go inside package utreexo; fails with the patch, passes without)",
     }
     json.dump(meta, open(os.path.join(dst, "meta.json"), "w"), indent=1)
-    table.append((pid + "-" + x, files, [c["check"] + ": " + c["first_violation"].replace("obligation ", "")[:70] for c in caught], silent))
-with open("/verif/seeded/TABLE.md", "w") as fh:
+    table.append((base.replace("_", "-") + "-" + x, files, [c["check"] + ": " + c["first_violation"].replace("obligation ", "")[:70] for c in caught], silent))
+with open(sys.argv[2] if len(sys.argv) > 2 else "/verif/seeded/TABLE.md", "w") as fh:
     fh.write("| seeded change | files | caught by (first failed obligation / clause) | silent |\n|---|---|---|---|\n")
     for n, f, c, s in table:
         fh.write("| %s | %s | %s | %s |\n" % (n, ", ".join(f), "<br>".join(c) or "**missed**", ", ".join(s)))
